@@ -315,6 +315,11 @@ func restoreChunk(ctx context.Context, ndb db.NodeDB, chunk *ChunkMetadata, r io
 	if err != nil {
 		return fmt.Errorf("%w: %s", ErrChunkProofVerificationFailed, err.Error())
 	}
+	// A proof that consists of nothing but the hash of the root verifies, but proves (and restores)
+	// nothing. Every chunk of a checkpoint of a non-empty tree carries at least the root node.
+	if !chunk.Root.Hash.IsEmpty() && (ptr == nil || ptr.Node == nil) {
+		return fmt.Errorf("%w: proof contains no nodes", ErrChunkProofVerificationFailed)
+	}
 
 	// Import chunk into the node database.
 	emptyRoot := node.Root{
